@@ -861,3 +861,46 @@ Proof.
   { apply is_prefix_app. apply is_prefix_spec. exists (post ++ [b]). rewrite Ef, <- app_assoc. reflexivity. }
   rewrite PF. reflexivity.
 Qed.
+
+(* ---------------------------------------------------------------------------------------------------------- *)
+(* the request and response sections of an accepted service: <service>.Request / <service>.Response with the same
+   root namespace directory as the service itself                                                              *)
+Lemma composite_sections (rp : list (list Z)) (rn : list Z) (ds : list (list Z)) (short b : list Z) mj mn port :
+  let root := rp ++ [rn] in
+  let file := root ++ ds ++ [b] in
+  let cs := (rn :: ds) ++ [short] in
+  Forall no_dot cs ->
+  svc_checks cs mj mn port = true ->
+  composite_init (join_with dot cs ++ REQUEST) mj mn None file true false = Ok (join_with dot cs ++ REQUEST, root) /\
+  composite_init (join_with dot cs ++ RESPONSE) mj mn None file true false = Ok (join_with dot cs ++ RESPONSE, root).
+Proof.
+  intros root file cs Hcs K.
+  assert (NEcs : cs <> []) by (unfold cs; discriminate).
+  unfold svc_checks in K. apply andb_true_iff in K. destruct K as [K Kp]. apply andb_true_iff in K. destruct K as [K Kv].
+  apply andb_true_iff in K. destruct K as [Kn Kl]. apply negb_true_iff in Kl. apply Z.ltb_ge in Kl.
+  assert (SEC : forall w tail, w = dot :: tail -> check_name tail = true -> no_dot tail -> (Z.of_nat (length tail) <= 8) ->
+            composite_init (join_with dot cs ++ w) mj mn None file true false = Ok (join_with dot cs ++ w, root)).
+  { intros w tail -> Hc Hnd Hlen.
+    assert (E : join_with dot cs ++ dot :: tail = join_with dot ((rn :: ds) ++ [short; tail])).
+    { change ((rn :: ds) ++ [short; tail]) with ((rn :: ds) ++ [short] ++ [tail]). rewrite app_assoc. fold cs.
+      rewrite (join_app_single cs tail NEcs). reflexivity. }
+    assert (F : Forall no_dot ((rn :: ds) ++ [short; tail])).
+    { change ((rn :: ds) ++ [short; tail]) with ((rn :: ds) ++ [short] ++ [tail]). rewrite app_assoc.
+      apply Forall_app. split; [exact Hcs|]. constructor; [exact Hnd|constructor]. }
+    assert (RL : removelast (removelast ((rn :: ds) ++ [short; tail])) = rn :: ds).
+    { change ((rn :: ds) ++ [short; tail]) with ((rn :: ds) ++ [short] ++ [tail]). rewrite app_assoc.
+      rewrite removelast_app_single, removelast_app_single. reflexivity. }
+    rewrite E. unfold file.
+    rewrite (composite_init_shape rp rn ds [short; tail] b root _ mj mn None true false eq_refl eq_refl F RL) by discriminate.
+    assert (NC : name_checks ((rn :: ds) ++ [short; tail]) mj mn None false = true).
+    { unfold name_checks. apply andb_true_iff. split; [|reflexivity].
+      apply andb_true_iff. split; [|exact Kv]. apply andb_true_iff. split.
+      - change ((rn :: ds) ++ [short; tail]) with ((rn :: ds) ++ [short] ++ [tail]). rewrite app_assoc. fold cs.
+        rewrite forallb_app. cbn [forallb]. rewrite Kn, Hc. reflexivity.
+      - apply negb_true_iff. apply Z.ltb_ge. rewrite <- E, app_length. cbn [length].
+        rewrite Nat2Z.inj_add, Nat2Z.inj_succ. unfold MAX_NAME_LENGTH in *. lia. }
+    rewrite NC. reflexivity. }
+  split.
+  - apply (SEC REQUEST W_Request); [reflexivity|reflexivity|apply no_dot_word; reflexivity|simpl; lia].
+  - apply (SEC RESPONSE W_Response); [reflexivity|reflexivity|apply no_dot_word; reflexivity|simpl; lia].
+Qed.
